@@ -9,6 +9,7 @@ import (
 	"io"
 	"os"
 	"path/filepath"
+	"strconv"
 	"strings"
 	"sync"
 	"time"
@@ -163,6 +164,12 @@ func modeSchedFree(a args) {
 	for i := 0; i < a.n(4, 32); i++ {
 		if a.mine(i) {
 			runHookFailure(a, i)
+		}
+	}
+	// a stage condition whose executable leaves a child behind (that keeps its output open) and returns at once
+	for i := 0; i < a.n(2, 16); i++ {
+		if a.mine(i) {
+			runLingeringCondition(a, i)
 		}
 	}
 	// C01 with real processes: a dependency whose command overruns its timeout and ignores the interrupt, in a
@@ -403,6 +410,60 @@ func runHookFailure(a args, idx int) {
 	out.Count("executions", 1)
 	out.Count("hook_failure_pipelines", 1)
 	out.Nontrivial("C03", fmt.Sprint("hook-failure", idx))
+}
+
+// runLingeringCondition: stages x and y wait for each other (bounded); x has a stage-level condition whose script
+// starts a long-lived background child and exits 0 immediately. The condition has been evaluated once it returns.
+func runLingeringCondition(a args, idx int) {
+	dir := filepath.Join(a.Work, fmt.Sprintf("lingercond.%d", idx))
+	os.MkdirAll(dir, 0o755)
+	defer os.RemoveAll(dir)
+	script := dir + "/cond.sh"
+	os.WriteFile(script, []byte(fmt.Sprintf("#!/bin/sh\n(sleep 40 & echo $! >> '%s/pids') \nexit 0\n", dir)), 0o755)
+	defer func() {
+		for _, f := range strings.Fields(h.ReadFile(dir + "/pids")) {
+			if p, e := strconv.Atoi(f); e == nil && p > 1 {
+				if pr, e2 := os.FindProcess(p); e2 == nil {
+					pr.Kill()
+				}
+			}
+		}
+	}()
+	wait := func(self, other string) string {
+		return fmt.Sprintf(": > '%s/started.%s'; n=0; while [ ! -e '%s/started.%s' ]; do sleep 0.01; n=$((n+1)); if [ $n -gt 1000 ]; then exit 1; fi; done", dir, self, dir, other)
+	}
+	tx, ty := task.FromCommands(wait("x", "y")), task.FromCommands(wait("y", "x"))
+	tx.Name, ty.Name = "x", "y"
+	stages := []*scheduler.Stage{{Name: "x", Task: tx, Condition: script}, {Name: "y", Task: ty}}
+	if idx%2 == 1 {
+		stages[0], stages[1] = stages[1], stages[0]
+	}
+	g, err := scheduler.NewExecutionGraph(stages...)
+	if err != nil {
+		return
+	}
+	out.Begin(fmt.Sprintf("lingering-condition#%d", idx))
+	tr := newQuietRunner()
+	sch := scheduler.NewScheduler(tr)
+	sch.VerifSetPause(time.Millisecond)
+	done := make(chan error, 1)
+	go func() { done <- sch.Schedule(g) }()
+	cas := map[string]interface{}{"condition_script": "(sleep 40 &); exit 0"}
+	select {
+	case err := <-done:
+		if err != nil {
+			out.Viol("C04", "barrier-pipeline-failed/lingering-condition", fmt.Sprintf("two independent stages that wait for each other did not run at the same time although the condition of one of them had returned: %v", err), cas)
+			out.Viol("C03", "schedule-held-up-by-a-returned-condition", "the scheduling loop was held up by a stage condition whose executable had already exited (it left a background child behind)", cas)
+		}
+	case <-time.After(60 * time.Second):
+		out.Viol("C03", "schedule-did-not-return/lingering-condition", "pipeline with a stage condition that leaves a background child behind did not return within 60 s", cas)
+		return
+	}
+	lockedFinish(sch.Finish)
+	out.Count("executions", 1)
+	out.Count("lingering_condition_pipelines", 1)
+	out.Nontrivial("C04", fmt.Sprint("lingering-condition", idx))
+	out.Nontrivial("C03", fmt.Sprint("lingering-condition", idx))
 }
 
 func runTimeoutDep(a args, idx int) {
